@@ -36,6 +36,7 @@ namespace bj = boost::json;
 #endif
 #ifdef VF_HAS_ASAN
 extern "C" void __asan_set_error_report_callback(void (*)(const char*));
+extern "C" void __sanitizer_set_death_callback(void (*)(void));
 #endif
 
 namespace vf {
@@ -174,6 +175,16 @@ inline void crash_handler(int sig) {
   }
   _exit(3);
 }
+// the sanitizer is about to terminate the process on an error it cannot recover from: leave a crash record
+inline void san_death_callback() {
+  auto& c = crash_ctx();
+  if (c.out) {
+    std::fprintf(c.out, "{\"kind\":\"crash\",\"signal\":-1,\"sanitizer\":%s,\"where\":%s}\n",
+                 bj::serialize(bj::value(san_report().substr(0, 300))).c_str(), bj::serialize(bj::value(c.where)).c_str());
+    std::fflush(c.out);
+    c.out = nullptr;
+  }
+}
 inline void install_crash_handlers() {
   std::signal(SIGSEGV, crash_handler);
   std::signal(SIGABRT, crash_handler);
@@ -280,7 +291,7 @@ void replay_config(ReplayCtx& ctx) {
   if (pid == 0) { replay_config_inproc<Model>(ctx); std::fflush(ctx.out); _exit(0); }
   int status = 0;
   waitpid(pid, &status, 0);
-  if (WIFSIGNALED(status) || (WIFEXITED(status) && WEXITSTATUS(status) != 0 && WEXITSTATUS(status) != 3)) {
+  if (WIFSIGNALED(status) || (WIFEXITED(status) && WEXITSTATUS(status) != 0 && WEXITSTATUS(status) != 3 && WEXITSTATUS(status) != 1)) {
     std::fprintf(ctx.out, "{\"kind\":\"crash\",\"signal\":%d,\"where\":%s}\n", WIFSIGNALED(status) ? WTERMSIG(status) : -WEXITSTATUS(status),
                  bj::serialize(bj::value(std::string(Model::name()) + " (child died without a report)")).c_str());
   }
@@ -374,6 +385,7 @@ inline ReplayCtx replay_setup(int argc, char** argv) {
   install_crash_handlers();
 #ifdef VF_HAS_ASAN
   __asan_set_error_report_callback(san_callback);
+  __sanitizer_set_death_callback(san_death_callback);
 #endif
   return ctx;
 }
